@@ -98,6 +98,34 @@ def zygote_main():
         sys.stdout.write(json.dumps(out) + "\n"); sys.stdout.flush()
 
 
+def sibling(rng, cfg):
+    """a hand sharing cards with `cfg` under different roles"""
+    c = copy.deepcopy(cfg)
+    n = c["n"]
+    kind = rng.randrange(5)
+    if kind == 0:      # one player swaps hole cards with the cards that will become the board
+        i = rng.randrange(n)
+        k = rng.randrange(1, len(c["hands"][i]) + 1)
+        hi = rng.sample(range(len(c["hands"][i])), k)
+        bi = rng.sample(range(5), min(k, 5))
+        for a, b in zip(hi, bi):
+            c["hands"][i][a], c["deck"][b] = c["deck"][b], c["hands"][i][a]
+    elif kind == 1:    # same hands, another board
+        head, rest = c["deck"][:5], c["deck"][5:]
+        rng.shuffle(rest)
+        c["deck"] = rest[:5] + head + rest[5:]
+    elif kind == 2:    # same board, hands rotated among the seats
+        c["hands"] = c["hands"][1:] + c["hands"][:1]
+    elif kind == 3:    # same cards, other order inside hands and board
+        for h in c["hands"]:
+            rng.shuffle(h)
+        head = c["deck"][:5]; rng.shuffle(head)
+        c["deck"] = head + c["deck"][5:]
+    else:              # same cards, other stacks / blinds
+        c["stacks"] = [max(4, x + rng.choice([-3, 5, 40])) for x in c["stacks"]]
+    return c
+
+
 class C16(Prop):
     pid = "C16"
     title = "isolation: transcripts in a pristine interpreter = after/between other games; process-global containers never written"
@@ -129,6 +157,46 @@ class C16(Prop):
                     t["kind"] = "gin"
                 traces.append(t)
             order = list(range(len(traces))); rng.shuffle(order)
+            if rng.random() < 0.6:
+                # adversarial history: "sibling" hands that share cards with a target hand under different roles (same
+                # nine cards split differently between hole cards and board, same hands on another board, same cards
+                # in another order, other stacks) -- whatever a process-wide cache might be keyed on too coarsely.
+                # The siblings are played first, the target last.
+                tgt = poker.gen_cfg(rng)
+                tgt["stacks"] = [max(4, x) for x in tgt["stacks"]]
+                tgt["board"] = []
+                sibs = [sibling(rng, tgt) for _ in range(rng.randrange(1, 4))]
+                group = []
+                for cfg in sibs + [tgt]:
+                    t = poker.play(rng, copy.deepcopy(cfg), probes_per_state=0, policy="checkcall")
+                    t["kind"] = "poker"
+                    group.append(t)
+                base = len(traces)
+                traces = traces + group
+                order = order + list(range(base, base + len(group)))
+            if rng.random() < 0.3:
+                # the same for gin: the target deal after siblings with suits relabelled / hands swapped / another stock order
+                tg = gin.gen_game(rng)
+                group = []
+                for j in range(rng.randrange(1, 3)):
+                    sb = copy.deepcopy(tg)
+                    kindg = rng.randrange(3)
+                    if kindg == 0:
+                        perm = dict(zip("cdhs", rng.sample("cdhs", 4)))
+                        for k in ("deck", "discard", "p1", "p2"):
+                            sb[k] = [c[0] + perm[c[1]] for c in sb[k]]
+                    elif kindg == 1:
+                        sb["p1"], sb["p2"] = sb["p2"], sb["p1"]
+                    else:
+                        rng.shuffle(sb["deck"])
+                    group.append(sb)
+                group.append(tg)
+                base = len(traces)
+                for cfgg in group:
+                    t = gin.play(rng, cfgg, probes=0, max_ops=30)
+                    t["kind"] = "gin"
+                    traces = traces + [t]
+                order = order + list(range(base, base + len(group)))
             yield {"traces": traces, "order": order, "iseed": rng.randrange(1 << 30)}
 
     def impl(self, case):
